@@ -11,7 +11,7 @@ NDET_ALLOWED = {'write_srec_header@fileio/write_srec.cpp': 'S0 header timestamp:
 IMAGE_SINKS = ('Memory::write8', 'Memory::write', 'Memory::write16', 'Memory::write32', 'Memory::write_debug',
                'AsmContext::memory_write', 'AsmContext::memory_write_inc', 'add_bin8', 'add_bin16', 'add_bin32',
                'Symbols::append', 'Symbols::set', 'macros_append', 'tokens_get', 'tokens_get_char', 'tokens_push',
-               'AsmContext::set_org')
+               'AsmContext::set_org', 'Symbols::scope_reset', 'Symbols::lock', 'AsmContext::init')
 
 
 def ndet(prog, cg, roots):
